@@ -1,5 +1,7 @@
 import Abyss.Props.C03
 import Abyss.Props.C03Snapshot
+import Abyss.Props.C03Db
+#print axioms Abyss.Buf.C16_db_reported
 #print axioms Abyss.C16_recovered_image
 #print axioms Abyss.Buf.C16_reported
 #print axioms Abyss.Buf.C16_memory_intact
